@@ -20,7 +20,7 @@ ASSUMPTIONS = [
     "scheduling: optimum compared with the brute-force optimum over semi-active schedules (which contain an optimal schedule); FJSP/JSSP with waits enabled",
     "MDCPDP: canonical form = set of (depot, route) over the non-empty tours; idle depot hops, the order in which vehicles leave and the (unused) depots visited only to end the episode are forgotten. Candidates: every customer order cut into <= D routes, each given to a distinct depot",
 ]
-REQUIRED_COUNTERS = ["c05_instances_fully_explored", "c05_candidates_checked", "c05_optimum_compared", "c05_boundary_instances", "c05_exact_fill_candidates", "c05_semi_active_schedules"]
+REQUIRED_COUNTERS = ["c05_instances_fully_explored", "c05_candidates_checked", "c05_optimum_compared", "c05_boundary_instances", "c05_exact_fill_candidates", "c05_semi_active_schedules", "c05_explored_in_company"]
 MIN_NONTRIVIAL = {"quick": 150, "thorough": 2500}
 WORKERS = {"quick": 14, "thorough": 16}
 BUDGET_S = {"quick": 600, "thorough": 3300}
@@ -56,6 +56,13 @@ def cases(tier, seed):
         add(dict(env="cvrptw", n=n, scale=True), ("gen",), max(1, reps // 2))
         for p in ("cvrp", "vrpb", "vrpl", "ovrp", "vrptw", "ovrpbltw", "vrpbltw", "all"):
             add(dict(env="mtvrp", n=n, preset=p), ("gen", "boundary") if p in ("cvrp", "vrpb", "all", "vrptw", "vrpbltw", "ovrpbltw") else ("gen",), max(1, reps // 2))
+    # vehicle speed != 1 and windows that close right after the exact arrival along a chain of customers
+    for n in ((4, 5) if q else (3, 4, 5, 6)):
+        for p_, sp in (("vrptw", 2.0), ("ovrptw", 0.5), ("vrpbltw", 2.0), ("vrptw", None)):
+            cfg_ = dict(env="mtvrp", n=n, preset=p_)
+            if sp is not None:
+                cfg_["speed"] = sp
+            add(cfg_, ("gen", "chain"), max(1, reps // 2))
     for n in ((4, 6) if q else (4, 6)):
         add(dict(env="pdp", n=n, start_depot=False))
         add(dict(env="pdp", n=n, start_depot=True))
@@ -63,6 +70,10 @@ def cases(tier, seed):
                      (6, (("minmax", "close", "L2", 2), ("minsum", "open", "L1", 3), ("lateness", "close", "L2", 3), ("minmax", "open", "L2", 2)))):
         for rm, pm, dm, dep in modes:
             add(dict(env="mdcpdp", n=n, reward_mode=rm, problem_mode=pm, dist_mode=dm, depots=dep), ("gen",), max(1, reps // 2))
+    # every other routing instance is explored with a second, different instance sitting at row 0 of the batch
+    for i, c_ in enumerate(out):
+        if i % 2 == 1:
+            c_["companion"] = True
     # scheduling
     for (j, m, lo, hi) in ([(2, 2, 1, 2), (3, 2, 1, 2)] if q else [(2, 2, 1, 2), (3, 2, 1, 2), (2, 3, 2, 3), (3, 2, 2, 2)]):
         add(dict(env="fjsp", jobs=j, mas=m, min_ops=lo, max_ops=hi, mask_no_ops=False, n=j * hi, pmax=5))
